@@ -27,6 +27,15 @@ func SchedStats() (hash, picks, yields uint64)
 //go:linkname SetYield runtime.simSetYield
 func SetYield(num, den uint64)
 
+// SetStall: with probability 1/den a schedule point also lets up to maxNS of
+// virtual time pass (den 0 = off).
+//
+//go:linkname SetStall runtime.simSetStall
+func SetStall(den, maxNS uint64)
+
+//go:linkname StallCount runtime.simStallCount
+func StallCount() uint64
+
 //go:linkname SetWallLimit runtime.simSetWallLimit
 func SetWallLimit(ns int64)
 
@@ -314,6 +323,7 @@ func (r *Run) FailedFor(prop string) bool {
 func (r *Run) Probe(name string)         { r.mu.Lock(); r.probes[name]++; r.mu.Unlock() }
 func (r *Run) ProbeN(name string, n int) { r.mu.Lock(); r.probes[name] += int64(n); r.mu.Unlock() }
 func (r *Run) Fault(name string)         { r.mu.Lock(); r.faults[name]++; r.mu.Unlock() }
+func (r *Run) FaultN(name string, n int) { r.mu.Lock(); r.faults[name] += int64(n); r.mu.Unlock() }
 func (r *Run) ProbeCount(name string) int64 {
 	r.mu.Lock()
 	defer r.mu.Unlock()
